@@ -1,7 +1,8 @@
 import XpmVerif.Proofs.IdentPerm
-import XpmVerif.Model.IdentImpl
+import XpmVerif.Proofs.HashRefs
 /-! Cache coherence (C01), part 0: lemmas shared by the acyclic and the general proof.
-    * congruence: the stream of a node only reads `cfg` on `nodeRefs`;
+    * (in Proofs/HashRefs.lean) static reference lists (`valueRefs`, `defaultRefs`, `relRefs`, `allRefs`) and
+      congruence: the stream of a node only reads `cfg` on `valueRefs` and `ceq` on `defaultRefs × valueRefs`;
     * `relIndex`, `foldl max`;
     * sealing only changes `sealed` flags (`SameContent`), and the specification ignores them;
     * the op runner for query-only histories and its generic soundness theorem, parametrised by an
@@ -10,85 +11,6 @@ import XpmVerif.Model.IdentImpl
       last occurrence wins) are permutations of each other. -/
 namespace XpmVerif.Ident
 open List
-
-/-! ### the encoder reads `cfg` only on the references it descends into -/
-
-mutual
-theorem encVal_congr_refs (cfg cfg' : Nat → List Nat) (mt : Nat → Option Bool) :
-    ∀ v : Val, (∀ m, m ∈ refsVal mt v → cfg m = cfg' m) → encVal cfg mt v = encVal cfg' mt v
-  | .none, _ => by simp [encVal]
-  | .bool _, _ => by simp [encVal]
-  | .int _, _ => by simp [encVal]
-  | .float _, _ => by simp [encVal]
-  | .str _, _ => by simp [encVal]
-  | .enum _, _ => by simp [encVal]
-  | .path _, _ => by simp [encVal]
-  | .list l, h => by
-    simp only [encVal]
-    rw [encItems_congr_refs cfg cfg' mt l (fun m hm => h m (by simpa [refsVal] using hm))]
-  | .dict ks vs, h => by
-    simp only [encVal]
-    rw [encPairs_congr_refs cfg cfg' mt ks vs (fun m hm => h m (by simpa [refsVal] using hm))]
-  | .ref n, h => by simp [encVal, h n (by simp [refsVal])]
-theorem encItems_congr_refs (cfg cfg' : Nat → List Nat) (mt : Nat → Option Bool) :
-    ∀ l : List Val, (∀ m, m ∈ refsVals mt l → cfg m = cfg' m) → encItems cfg mt l = encItems cfg' mt l
-  | [], _ => by simp [encItems]
-  | v :: vs, h => by
-    simp only [encItems]
-    by_cases hd : dropped mt v = true
-    · simp only [hd, if_true]
-      exact encItems_congr_refs cfg cfg' mt vs (fun m hm => h m (by simp [refsVals, hd, hm]))
-    · simp only [hd]
-      rw [encVal_congr_refs cfg cfg' mt v (fun m hm => h m (by simp [refsVals, hd, hm])),
-        encItems_congr_refs cfg cfg' mt vs (fun m hm => h m (by simp [refsVals, hd, hm]))]
-theorem encPairs_congr_refs (cfg cfg' : Nat → List Nat) (mt : Nat → Option Bool) :
-    ∀ (ks : List (List Nat)) (vs : List Val), (∀ m, m ∈ refsVals mt vs → cfg m = cfg' m) →
-      encPairs cfg mt ks vs = encPairs cfg' mt ks vs
-  | [], _, _ => by simp [encPairs]
-  | _ :: _, [], _ => by simp [encPairs]
-  | k :: ks, v :: vs, h => by
-    simp only [encPairs]
-    by_cases hd : dropped mt v = true
-    · simp only [hd, if_true]
-      exact encPairs_congr_refs cfg cfg' mt ks vs (fun m hm => h m (by simp [refsVals, hd, hm]))
-    · simp only [hd]
-      rw [encVal_congr_refs cfg cfg' mt v (fun m hm => h m (by simp [refsVals, hd, hm])),
-        encPairs_congr_refs cfg cfg' mt ks vs (fun m hm => h m (by simp [refsVals, hd, hm]))]
-end
-
-theorem argStream_congr_refs (cfg cfg' : Nat → List Nat) (mt : Nat → Option Bool) (a : Arg)
-    (h : included mt a = true → ∀ m, m ∈ refsVal mt a.value → cfg m = cfg' m) :
-    argStream cfg mt a = argStream cfg' mt a := by
-  unfold argStream
-  by_cases hi : included mt a = true
-  · simp only [hi, if_true]; rw [encVal_congr_refs cfg cfg' mt a.value (h hi)]
-  · simp [hi]
-
-/-- **congruence on `nodeRefs`**: two reference encoders that agree on the references of the node
-    give the same stream. -/
-theorem nodeStream_congr_refs (cfg cfg' : Nat → List Nat) (mt : Nat → Option Bool) (self : Nat) (nd : Node)
-    (h : ∀ m, m ∈ nodeRefs mt self nd → cfg m = cfg' m) :
-    nodeStream cfg mt self nd = nodeStream cfg' mt self nd := by
-  have hargs : ∀ a, a ∈ sortBy (fun a b => bytesLe a.name b.name) nd.args →
-      argStream cfg mt a = argStream cfg' mt a := by
-    intro a ha
-    have ha' : a ∈ nd.args := (sortBy_perm _ nd.args).subset ha
-    apply argStream_congr_refs
-    intro hi m hm
-    apply h
-    unfold nodeRefs
-    apply mem_append_right
-    simp only [mem_flatten, mem_map, mem_filter]
-    exact ⟨_, ⟨a, ⟨ha', hi⟩, rfl⟩, hm⟩
-  unfold nodeStream
-  rw [map_congr_left hargs]
-  cases ht : nd.task with
-  | none => rfl
-  | some t =>
-    by_cases hts : t = self
-    · simp [hts]
-    · have : cfg t = cfg' t := h t (by unfold nodeRefs; simp [ht, hts])
-      simp [hts, this]
 
 /-! ### `relIndex` -/
 
@@ -216,16 +138,30 @@ theorem SameContent.initTasks (n : Nat) : (g'.node n).initTasks = (g.node n).ini
 
 theorem SameContent.mt : g'.mt = g.mt := funext fun n => h.mflag n
 
-theorem SameContent.nodeStream (cfg : Nat → List Nat) (n : Nat) :
-    nodeStream cfg g'.mt n (g'.node n) = nodeStream cfg g.mt n (g.node n) := by
+theorem SameContent.nodeStream (cfg : Nat → List Nat) (ceq : Nat → Nat → Bool) (n : Nat) :
+    nodeStream cfg ceq g'.mt n (g'.node n) = nodeStream cfg ceq g.mt n (g.node n) := by
   simp only [Ident.nodeStream, h.mt, h.task, h.args, h.typeId]
 
-theorem SameContent.nodeRefs (n : Nat) : nodeRefs g'.mt n (g'.node n) = nodeRefs g.mt n (g.node n) := by
+theorem SameContent.nodeRefs (onst : Nat → Bool) (ceq : Nat → Nat → Bool) (n : Nat) :
+    nodeRefs onst ceq g'.mt n (g'.node n) = nodeRefs onst ceq g.mt n (g.node n) := by
   simp only [Ident.nodeRefs, h.mt, h.task, h.args]
+
+theorem SameContent.relRefs (n : Nat) : relRefs g'.mt n (g'.node n) = relRefs g.mt n (g.node n) := by
+  simp only [Ident.relRefs, Ident.valueRefs, Ident.defaultRefs, Ident.taskRefs, h.mt, h.task, h.args]
+
+theorem SameContent.valueRefs (n : Nat) : valueRefs g'.mt n (g'.node n) = valueRefs g.mt n (g.node n) := by
+  simp only [Ident.valueRefs, Ident.taskRefs, h.mt, h.task, h.args]
+
+theorem SameContent.defaultRefs (n : Nat) : defaultRefs g'.mt (g'.node n) = defaultRefs g.mt (g.node n) := by
+  simp only [Ident.defaultRefs, h.mt, h.args]
+
+theorem SameContent.allRefs (n : Nat) : allRefs g'.mt n (g'.node n) = allRefs g.mt n (g.node n) := by
+  rw [Ident.allRefs, h.relRefs, Ident.allRefs]
+  simp only [Ident.metaRefs, h.mt, h.args]
 
 theorem SameContent.rawAt {D : Type} (hc : HC D) (fuel : Nat) (stack : List Nat) (n : Nat) :
     rawAt hc g' fuel stack n = rawAt hc g fuel stack n :=
-  rawAt_congr hc g' g (fun n cfg => h.nodeStream cfg n) fuel stack n
+  rawAt_congr hc g' g (fun n cfg ceq => h.nodeStream cfg ceq n) fuel stack n
 
 theorem SameContent.rawId {D : Type} (hc : HC D) (n : Nat) : rawId hc g' n = rawId hc g n := by
   unfold Ident.rawId; rw [h.1, h.rawAt]
@@ -501,7 +437,7 @@ theorem rawSound_of {D : Type} (hc : HC D) (g0 : Graph) (J : (Nat → Option (D 
     (hmiss : ∀ (s : St D) n, SameContent g0 s.g → J s.c.raw →
       computeAt hc s.g s.c (s.g.size + 1) [] n = rawId hc g0 n)
     (hstore : ∀ (s : St D) n, SameContent g0 s.g → J s.c.raw →
-      J (updF s.c.raw n (some (rawId hc g0 n, decide (escAt s.g s.c (s.g.size + 1) [] n ≥ 1))))) :
+      J (updF s.c.raw n (some (rawId hc g0 n, decide (escAt hc s.g s.c (s.g.size + 1) [] n ≥ 1))))) :
     RawSound hc g0 J := by
   intro s n hg hJ
   unfold reqRaw
